@@ -354,6 +354,47 @@ def run(ctx: Ctx) -> None:
                 ctx.report(f"too-new:FURB{k[3]}", f"--python-version 3.{cli_v} with python_version = \"3.{cfg_v}\" in the config file: FURB{k[3]} proposes a feature newer than 3.{cli_v}: {m}", detail)
             else:
                 ctx.report("target:not-the-command-line-version", f"--python-version 3.{cli_v} with python_version = \"3.{cfg_v}\" in the config file does not report what --python-version 3.{cli_v} alone reports", detail)
+    # a third place that can name a version: mypy's own configuration (mypy.ini, [tool.mypy], an argument after `--`).  Whatever it
+    # says, an explicit refurb target (command line or [tool.refurb]) is the target of the suggestions.
+    import os as _os
+    for where, mypy_v, how, tgt in [("mypy.ini", 11, "cli", 8), ("mypy.ini", 11, "config", 9), ("pyproject-tool-mypy", 11, "cli", 8), ("pyproject-tool-mypy", 10, "config", 7),
+                                    ("mypy-argument", 11, "cli", 8), ("mypy-argument", 10, "config", 9), ("setup.cfg", 11, "cli", 10), ("mypy.ini", 8, "cli", top)]:
+        with tempfile.TemporaryDirectory(prefix="c15-") as td:
+            extra_args: list[str] = []
+            toml_text = "[tool.refurb]\nenable_all = true\n" + (f'python_version = "3.{tgt}"\n' if how == "config" else "")
+            if where == "mypy.ini":
+                (Path(td) / "mypy.ini").write_text(f"[mypy]\npython_version = 3.{mypy_v}\n")
+            elif where == "setup.cfg":
+                (Path(td) / "setup.cfg").write_text(f"[mypy]\npython_version = 3.{mypy_v}\n")
+            elif where == "pyproject-tool-mypy":
+                toml_text += f'[tool.mypy]\npython_version = "3.{mypy_v}"\n'
+            else:
+                extra_args = ["--", "--python-version", f"3.{mypy_v}"]
+            (Path(td) / "pyproject.toml").write_text(toml_text)
+            argv = (["--python-version", f"3.{tgt}"] if how == "cli" else []) + ["--quiet", idf0, *extra_args]
+            cwd0 = _os.getcwd()
+            _os.chdir(td)
+            try:
+                errs = run_refurb(load_settings(argv))
+            except Exception as ex:  # noqa: BLE001
+                errs = [f"{type(ex).__name__}: {ex}"]
+            finally:
+                _os.chdir(cwd0)
+        got = {(e.filename, e.line, e.column, e.code): e.msg for e in errs if not isinstance(e, str)}
+        want = {k: v for k, v in per_v[tgt].items() if k[0] == idf0}
+        ctx.case(("mypy-names-a-version", where, mypy_v, how, tgt), nontrivial=True)
+        ctx.count("mypy-configuration-names-another-version")
+        if got != want:
+            newer = [(k, m) for k, m in got.items() if max([v for v, _ in features_of(k[3], m, mod_names, methods)], default=7) > tgt]
+            detail = {"mypy python_version": f"3.{mypy_v}", "given by": where, "refurb target": f"3.{tgt}", "given by the": "command line" if how == "cli" else "[tool.refurb]", "argv": argv,
+                      "pyproject.toml": toml_text, "errors": [e for e in errs if isinstance(e, str)][:3],
+                      "only_here": sorted(f"{k[1]}:{k[2]} FURB{k[3]} {m}" for k, m in got.items() if want.get(k) != m)[:8],
+                      "missing": sorted(f"{k[1]}:{k[2]} FURB{k[3]} {m}" for k, m in want.items() if got.get(k) != m)[:8]}
+            if newer:
+                k, m = newer[0]
+                ctx.report(f"too-new:FURB{k[3]}", f"refurb target 3.{tgt} ({how}) with mypy's python_version 3.{mypy_v} ({where}): FURB{k[3]} proposes a feature newer than 3.{tgt}: {m}", detail)
+            else:
+                ctx.report("target:mypy-configuration-changes-the-report", f"refurb target 3.{tgt} ({how}) with mypy's python_version 3.{mypy_v} ({where}) does not report what the target alone reports", detail)
     # tie: the model's `fires` agrees with the real run for every gated check on the idiom corpus
     if table is not None:
         idf = files[0]
